@@ -403,6 +403,29 @@ func cmdVerify(args []string) int {
 			violations++
 			lines = append(lines, fmt.Sprintf("VIOLATION property=%s replay=%s", *prop, b.Replay))
 		}
+		// executions of the real code that break the property: listed known findings are
+		// reported as such, anything else is a violation with the harness log as its replay
+		for _, f := range b.Findings {
+			key, what := f, ""
+			if i := strings.Index(f, ": "); i >= 0 {
+				key, what = f[:i], f[i+2:]
+			}
+			obl := "bounded:" + b.Name + "#" + key
+			listed := false
+			for _, k := range kfs {
+				if k.Property == *prop && k.Obligation == obl && k.Status != "fixed" {
+					listed = true
+					knownLines = append(knownLines, fmt.Sprintf("KNOWN-FINDING: property=%s %s [%s]", *prop, k.What, obl))
+				}
+			}
+			if !listed {
+				violations++
+				os.MkdirAll(replayDir, 0o755)
+				p := filepath.Join(replayDir, "bounded_"+sanitize(b.Name)+"_"+sanitize(key)+".txt")
+				os.WriteFile(p, []byte("bounded harness "+b.Name+" ("+b.Bound+") observed on the real code: "+key+": "+what+"\n\nharness output:\n"+b.Log), 0o644)
+				lines = append(lines, fmt.Sprintf("VIOLATION property=%s replay=%s", *prop, p))
+			}
+		}
 	}
 
 	for _, l := range knownLines {
